@@ -1,6 +1,6 @@
 (* C08: every telemetry sample of the MP4 is returned once, in order, at its media time. *)
-From Coq Require Import String Ascii List ZArith NArith Bool.
-From TT Require Import Base.Outcome Base.Str Gpmf.Klv Gpmf.Walk Gpmf.Mp4 Proofs.C08_proofs.
+From Coq Require Import Lia String Ascii List ZArith NArith Bool.
+From TT Require Import Base.Outcome Base.Str Gpmf.Klv Gpmf.Walk Gpmf.Mp4 Proofs.C08_proofs Proofs.C08_spec.
 Import ListNotations.
 Local Open Scope Z_scope.
 
@@ -37,6 +37,42 @@ Proof.
   rewrite (H tr) by (left; reflexivity). apply IH. intros t Ht. apply H. right. exact Ht.
 Qed.
 Print Assumptions C08_no_track_is_error.
+
+(* where the bytes come from: for ANY tables on which the walk succeeds, the result splits into
+   runs, one per visited chunk; each run is read from a chunk that exists (1..number of chunk
+   offsets) and its samples lie back to back in the file from that chunk's offset *)
+Theorem C08_samples_placed :
+  forall tb ss, Forall (fun e => 0 <= fst e) (t_stsc tb) -> samples_of tb = Ok ss ->
+    exists crs, ss = concat (map snd crs) /\
+                Forall (fun cr => chunk_ok tb (fst cr) /\ contig (chunk_off tb (fst cr)) (snd cr)) crs.
+Proof. exact samples_placed. Qed.
+Print Assumptions C08_samples_placed.
+
+(* ---- the walk as a whole ---- *)
+(* For EVERY valid sample-to-chunk table (entries in increasing order starting at chunk 1, each
+   naming an existing chunk; minimal or redundant runs alike), ANY time-to-sample runs (also
+   zero-count runs), any sizes (table or uniform), any chunk offsets: the decoder's walk equals
+   the direct specification `chunksp` over chunks 1..C in order - chunk c contributes `spc_of c`
+   samples (the samples-per-chunk of the last entry whose first chunk is <= c), read back to back
+   from the chunk's offset; sample k has the k-th size and lasts the k-th duration of the
+   expanded run-length list, its interval starting where sample k-1 ended; the walk stops after
+   the declared number of samples and reports tables that describe fewer. *)
+Theorem C08_walk_is_spec :
+  forall tb f s rest,
+    let C := Z.of_nat (length (t_offsets tb)) in
+    t_stsc tb = (f, s) :: rest -> f = 1 -> increasing (t_stsc tb) ->
+    Forall (fun e => 1 <= fst e <= C) (t_stsc tb) -> C < 2 ^ 32 - 1 ->
+    samples_of tb =
+    bind (omap fst (chunksp tb (map (fun c => (c, spc_of (t_stsc tb) c)) (zrange 1 (length (t_offsets tb)))) (st0 tb))) (fun ss =>
+      if Z.of_nat (length ss) <? t_nsamples tb then Err "tables-describe-fewer-samples" else Ok ss).
+Proof. exact walk_is_spec. Qed.
+Print Assumptions C08_walk_is_spec.
+
+(* the specification on the example below: chunk 1 holds two samples, chunk 2 one *)
+Example C08_spec_example :
+  let tb := mkTables [(1, 2); (2, 1)] 0 3 [10; 20; 30] [(1, 100); (1, 200); (1, 400)] [1000; 5000] in
+  map (fun c => (c, spc_of (t_stsc tb) c)) (zrange 1 2) = [(1, 2); (2, 1)] /\ increasing (t_stsc tb).
+Proof. cbv zeta. split; [vm_compute; reflexivity|cbn; lia]. Qed.
 
 (* the canonical camera layout and a multi-sample-per-chunk layout with three stts runs *)
 Example C08_example :
